@@ -1,7 +1,7 @@
 """C11 Data uploaded once is deduplicated by every later session."""
 import json
 
-from checks import sm_common, up_common
+from checks import sh_common, sm_common, up_common
 
 PROPS = ["C11"]
 
@@ -10,10 +10,17 @@ def check(ctx):
     # the shard manager at lock granularity: a record that was added is in the memory shard or in a shard file at every
     # moment of every interleaving of add / flush (two critical sections) / register, and is found again afterwards
     sm_common.run(ctx)
+    # the index over registered shards on real shard files: keyed and plain collections side by side, colliding
+    # prefixes, and a shard whose other xorb has more chunks than a 16-bit chunk offset addresses (ShDedupMust: the
+    # chunks of a registered shard are found with their unkeyed hashes)
+    sh_common.record(ctx, "keyed", 5, seed_off=40, need=("ShDedupMust",))
     up_common.run_all(ctx, PROPS, faults=1)
 
 
 def replay(ctx, path):
-    if json.loads(open(path).readline()).get("ev") == "SmSetup":
+    head = json.loads(open(path).readline()).get("ev")
+    if head == "SmSetup":
         return 0 if sm_common.validate(ctx, path, "replay") else 1
+    if str(head).startswith("Sh"):
+        return 0 if sh_common.validate(ctx, path, "replay") else 1
     return 0 if up_common.validate(ctx, path, "replay", PROPS) else 1
